@@ -119,6 +119,9 @@ package keeper
 //@   before[C12.cp.token]  AppendPriceTR requires arg_tokenID == res_NewCreatePrice_0.TokenID
 //@   before[C12.cp.grow]   GrowRoundID requires arg_tokenID == res_NewCreatePrice_0.TokenID
 //@   before[C12.cp.marked] AppendUpdatedFeederIDs requires arg0 == msg.FeederID
+// C09 (a refused submission leaves no trace - not in the in-memory round either): the message reaches the aggregator,
+// which counts its prices and its sender's power at once, only after every check made here - the timestamps - has passed.
+//@   before[C09.cp.checked,C13.cp.checked] NewCreatePrice requires defined(res_checkTimestamp_0) && res_checkTimestamp_0 == nil
 
 // the oracle side of a token registration (new token and its feeder): assumed to be all-or-nothing
 //@ func (Keeper).RegisterNewTokenAndSetTokenFeeder
